@@ -8,7 +8,7 @@ from ..oracle import H, _is_text_block
 
 RULE = (
     "case = (content from the generator classes {empty,1 byte,text LF/CRLF/mixed,binary,NUL late,~30% non-text} x sizes "
-    "around 512 / 4096 / 2^20, algorithm name incl. case variants and blake3, entry point, read-size sequence); "
+    "around 512 / 4096 / 2^20, algorithm name incl. case variants and blake3, entry point, read-size sequence; streams over sources with short reads, optionally with transient read failures that the consumer retries, optionally with the digest looked at between reads); "
     "non-trivial = non-empty content; distinct = (size bucket, text/binary, algorithm, entry point, read-size class)"
 )
 ASSUMPTIONS = [
@@ -17,7 +17,7 @@ ASSUMPTIONS = [
     "case variants are exercised through the stream entry points (HashStreamFile, get_hash_stream, fobj_md5, file_md5)",
 ]
 MONITORS = "digest / passthrough bytes / byte count compared with hashlib on every evaluation"
-REQUIRED_COUNTERS = ["interleaved_stream_pairs", "short_read_streams", "stream_checks", "fobj_md5_checks", "hash_file_checks", "dos2unix_variant_checks", "memfs_checks"]
+REQUIRED_COUNTERS = ["midway_digest_peeks", "streams_with_transient_read_failures", "transient_read_failures_retried", "interleaved_stream_pairs", "short_read_streams", "stream_checks", "fobj_md5_checks", "hash_file_checks", "dos2unix_variant_checks", "memfs_checks"]
 
 PLAIN = ["md5", "sha1", "sha256", "sha512", "blake3", "sha224", "sha384"]
 VARIANTS = ["MD5", "Md5", "SHA256", "Sha256", "BLAKE3", "Blake3", "SHA1", "sHa512"]
@@ -51,10 +51,11 @@ def _read_sizes(rng, n):
 class ShortReader(io.RawIOBase):
     """An underlying stream that returns short reads before EOF (pipe / socket / raw file behaviour)."""
 
-    def __init__(self, data, rng, minimum=1):
+    def __init__(self, data, rng, minimum=1, fail=0.0):
         super().__init__()
         self.data, self.pos, self.rng, self.minimum = data, 0, rng, minimum
         self.returned = []
+        self.fail, self.failures = fail, 0
 
     def readable(self):
         return True
@@ -66,6 +67,10 @@ class ShortReader(io.RawIOBase):
         left = len(self.data) - self.pos
         if left <= 0 or n == 0:
             return b""
+        if self.fail and self.failures < 20 and self.rng.random() < self.fail:
+            # a transient failure (timeout / reset): this read hands out nothing and consumes nothing; the caller may simply retry
+            self.failures += 1
+            raise TimeoutError("injected transient read failure (verif)")
         want = left if n is None or n < 0 else min(n, left)
         k = want if self.rng.random() < 0.3 else self.rng.randrange(min(self.minimum, want), want + 1)
         k = max(1, k)
@@ -89,13 +94,23 @@ def _ref_by_chunks(data, chunks, dos2unix):
     return m.hexdigest()
 
 
-def _drain(stream, sizes):
+def _drain(stream, sizes, peek=None, retry=False):
     out = bytearray()
     i = 0
     while True:
         n = sizes[i % len(sizes)]
         i += 1
-        b = stream.read(n)
+        try:
+            b = stream.read(n)
+        except TimeoutError:
+            if not retry:
+                raise
+            i -= 1
+            continue
+        if peek is not None and b:
+            out += b
+            peek(stream, out)
+            del out[len(out) - len(b):]
         if n == 0:
             # a zero-length read returns nothing and is not the end of the data
             assert b == b""
@@ -170,9 +185,22 @@ def run_shard(ctx):
                 if short:
                     res.count("short_read_streams")
                 if entry in ("stream", "get_hash_stream"):
-                    fobj = ShortReader(data, rng) if short else io.BytesIO(data)
+                    flaky = short and rng.random() < 0.4
+                    fobj = ShortReader(data, rng, fail=0.15 if flaky else 0.0) if short else io.BytesIO(data)
                     st = HashStreamFile(fobj, name) if entry == "stream" else get_hash_stream(fobj, name)
-                    got = _drain(st, sizes)
+                    peek = None
+                    if rng.random() < 0.4:
+                        # the digest so far is looked at while the stream is still being read (progress / logging)
+                        def peek(stream, sofar, lname=lname, name=name):
+                            if rng.random() < 0.3:
+                                res.count("midway_digest_peeks")
+                                v = stream.hash_value
+                                if lname != "md5-dos2unix" and v != H(lname, bytes(sofar)):
+                                    bad("stream-digest-midway", f"digest looked at after {len(sofar)} bytes of a {name} stream is not the digest of those bytes", case, **sample)
+                    got = _drain(st, sizes, peek=peek, retry=flaky)
+                    if flaky:
+                        res.count("streams_with_transient_read_failures")
+                        res.count("transient_read_failures_retried", fobj.failures)
                     if short and lname == "md5-dos2unix":
                         ref = _ref_by_chunks(data, fobj.returned, True)  # normalisation is per read actually returned
                     res.count("stream_checks")
